@@ -195,11 +195,12 @@ def hasAdjDup : List Int → Bool
   | a :: b :: t => a == b || hasAdjDup (b :: t)
   | _ => false
 
-/-- `c.run(state)` for every constraint kind. `id` is the identity of `c` (used when it re-adds itself);
-    `k` bounds the self re-runs of `with_constraint_or_rerun` (each needs a newly bound operand). -/
-def runCst : Nat → Nat → Cst → State → Res State
-  | _, _, .diseq ps, st => runDiseq ord st ps
-  | _, id, .plusz u v w, st =>
+/-! `c.run(state)` for every constraint kind, one definition per kind.  `id` is the identity of the
+    constraint (used when it re-adds itself); `self id c st` runs a constraint one re-run level down:
+    the self re-run of `with_constraint_or_rerun` (each re-run needs a newly bound operand) and the
+    `DistinctFd2Constraint` that `DistinctFdConstraint::run` creates and runs. -/
+
+def runPlusZ (id : Nat) (u v w : Term) (st : State) : Res State :=
     match walk st.σ u, walk st.σ v, walk st.σ w with
     | .val (.num a), .val (.num b), .val (.num c) => if a + b = c then .ok st else .fail
     | .val (.num a), .val (.num b), .var z => rc { st with σ := bindS z (Term.num (a + b)) st.σ }
@@ -208,7 +209,8 @@ def runCst : Nat → Nat → Cst → State → Res State
     | .var _, .var _, .var _ | .var _, .var _, .val (.num _) | .var _, .val (.num _), .var _
     | .val (.num _), .var _, .var _ => .ok (st.withConstraint ord id (.plusz u v w))
     | _, _, _ => .fail
-  | _, id, .timesz u v w, st =>
+
+def runTimesZ (id : Nat) (u v w : Term) (st : State) : Res State :=
     match walk st.σ u, walk st.σ v, walk st.σ w with
     | .val (.num a), .val (.num b), .val (.num c) => if a * b = c then .ok st else .fail
     | .val (.num a), .val (.num b), .var z => rc { st with σ := bindS z (Term.num (a * b)) st.σ }
@@ -223,7 +225,8 @@ def runCst : Nat → Nat → Cst → State → Res State
     | .var _, .var _, .var _ | .var _, .var _, .val (.num _) | .var _, .val (.num _), .var _
     | .val (.num _), .var _, .var _ => .ok (st.withConstraint ord id (.timesz u v w))
     | _, _, _ => .fail
-  | k, id, .ltefd u v, st =>
+
+def runLteFd (self : Nat → Cst → State → Res State) (id : Nat) (u v : Term) (st : State) : Res State :=
     let uw := walk st.σ u
     let vw := walk st.σ v
     let ud := match uw with | .var x => st.dget x | _ => none
@@ -240,10 +243,7 @@ def runCst : Nat → Nat → Cst → State → Res State
           | none => .fail
           | some vd' =>
             (processDomain rc st vw vd').bind fun st =>
-            if operandBound st [uw, vw] then
-              match k with
-              | 0 => .fuel
-              | k' + 1 => runCst k' id (.ltefd u v) st
+            if operandBound st [uw, vw] then self id (.ltefd u v) st
             else .ok (st.withConstraint ord id (.ltefd u v))
       | _, _ => .panic "fd-minmax"
     | some udom, none =>
@@ -264,7 +264,18 @@ def runCst : Nat → Nat → Cst → State → Res State
       match uw, vw with
       | .val (.num a), .val (.num b) => if a ≤ b then .ok st else .fail
       | _, _ => .ok (st.withConstraint ord id (.ltefd u v))
-  | k, id, .plusfd u v w, st =>
+
+/-- the three-domain branch shared by `plusfd`/`minusfd`/`timesfd`: narrow `w`, `u`, `v` to the given
+    intervals, then re-run if propagation bound an operand, else re-add the constraint -/
+def narrow3 (self : Nat → Cst → State → Res State) (id : Nat) (c : Cst) (uw vw ww : Term)
+    (wi ui vi : FD) (st : State) : Res State :=
+  (processDomain rc st ww wi).bind fun st =>
+  (processDomain rc st uw ui).bind fun st =>
+  (processDomain rc st vw vi).bind fun st =>
+  if operandBound st [uw, vw, ww] then self id c st
+  else .ok (st.withConstraint ord id c)
+
+def runPlusFd (self : Nat → Cst → State → Res State) (id : Nat) (u v w : Term) (st : State) : Res State :=
     let uw := walk st.σ u
     let vw := walk st.σ v
     let ww := walk st.σ w
@@ -275,17 +286,13 @@ def runCst : Nat → Nat → Cst → State → Res State
       | some ud, some vd, some wd =>
         match ud.min?, ud.max?, vd.min?, vd.max?, wd.min?, wd.max? with
         | some umin, some umax, some vmin, some vmax, some wmin, some wmax =>
-          (processDomain rc st ww (.interval (umin + vmin) (umax + vmax))).bind fun st =>
-          (processDomain rc st uw (.interval (wmin - vmax) (wmax - vmin))).bind fun st =>
-          (processDomain rc st vw (.interval (wmin - umax) (wmax - umin))).bind fun st =>
-          if operandBound st [uw, vw, ww] then
-            match k with
-            | 0 => .fuel
-            | k' + 1 => runCst k' id (.plusfd u v w) st
-          else .ok (st.withConstraint ord id (.plusfd u v w))
+          narrow3 rc ord self id (.plusfd u v w) uw vw ww
+            (.interval (umin + vmin) (umax + vmax)) (.interval (wmin - vmax) (wmax - vmin))
+            (.interval (wmin - umax) (wmax - umin)) st
         | _, _, _, _, _, _ => .panic "fd-minmax"
       | _, _, _ => .ok (st.withConstraint ord id (.plusfd u v w))
-  | k, id, .minusfd u v w, st =>
+
+def runMinusFd (self : Nat → Cst → State → Res State) (id : Nat) (u v w : Term) (st : State) : Res State :=
     let uw := walk st.σ u
     let vw := walk st.σ v
     let ww := walk st.σ w
@@ -296,17 +303,32 @@ def runCst : Nat → Nat → Cst → State → Res State
       | some ud, some vd, some wd =>
         match ud.min?, ud.max?, vd.min?, vd.max?, wd.min?, wd.max? with
         | some umin, some umax, some vmin, some vmax, some wmin, some wmax =>
-          (processDomain rc st ww (.interval (umin - vmax) (umax - vmin))).bind fun st =>
-          (processDomain rc st uw (.interval (wmin + vmin) (wmax + vmax))).bind fun st =>
-          (processDomain rc st vw (.interval (umin - wmax) (umax - wmin))).bind fun st =>
-          if operandBound st [uw, vw, ww] then
-            match k with
-            | 0 => .fuel
-            | k' + 1 => runCst k' id (.minusfd u v w) st
-          else .ok (st.withConstraint ord id (.minusfd u v w))
+          narrow3 rc ord self id (.minusfd u v w) uw vw ww
+            (.interval (umin - vmax) (umax - vmin)) (.interval (wmin + vmin) (wmax + vmax))
+            (.interval (umin - wmax) (umax - wmin)) st
         | _, _, _, _, _, _ => .panic "fd-minmax"
       | _, _, _ => .ok (st.withConstraint ord id (.minusfd u v w))
-  | k, id, .timesfd u v w, st =>
+
+/-- `checked_div(..).unwrap_or(..)`: division by zero falls back to the old bound -/
+def cdiv (a b dflt : Int) : Int := if b = 0 then dflt else Int.tdiv a b
+
+/-- the intervals `timesfd` narrows `w`, `u`, `v` to (repaired: four-corner product bounds; quotient
+    bounds only when all lower bounds are non-negative) -/
+def timesBounds (umin umax vmin vmax wmin wmax : Int) : FD × FD × FD :=
+  let c1 := umin * vmin
+  let c2 := umin * vmax
+  let c3 := umax * vmin
+  let c4 := umax * vmax
+  let wlow := min (min c1 c2) (min c3 c4)
+  let whigh := max (max c1 c2) (max c3 c4)
+  let nonneg := decide (0 ≤ umin) && decide (0 ≤ vmin) && decide (0 ≤ wmin)
+  let ulow := if nonneg then cdiv wmin vmax umin else umin
+  let uhigh := if nonneg then cdiv wmax vmin umax else umax
+  let vlow := if nonneg then cdiv wmin umax vmin else vmin
+  let vhigh := if nonneg then cdiv wmax umin vmax else vmax
+  (.interval wlow whigh, .interval ulow uhigh, .interval vlow vhigh)
+
+def runTimesFd (self : Nat → Cst → State → Res State) (id : Nat) (u v w : Term) (st : State) : Res State :=
     let uw := walk st.σ u
     let vw := walk st.σ v
     let ww := walk st.σ w
@@ -317,30 +339,12 @@ def runCst : Nat → Nat → Cst → State → Res State
       | some ud, some vd, some wd =>
         match ud.min?, ud.max?, vd.min?, vd.max?, wd.min?, wd.max? with
         | some umin, some umax, some vmin, some vmax, some wmin, some wmax =>
-          let c1 := umin * vmin
-          let c2 := umin * vmax
-          let c3 := umax * vmin
-          let c4 := umax * vmax
-          let wlow := min (min c1 c2) (min c3 c4)
-          let whigh := max (max c1 c2) (max c3 c4)
-          let nonneg := decide (0 ≤ umin) && decide (0 ≤ vmin) && decide (0 ≤ wmin)
-          -- `checked_div(..).unwrap_or(..)`: division by zero falls back to the old bound
-          let cdiv (a b dflt : Int) : Int := if b = 0 then dflt else Int.tdiv a b
-          let ulow := if nonneg then cdiv wmin vmax umin else umin
-          let uhigh := if nonneg then cdiv wmax vmin umax else umax
-          let vlow := if nonneg then cdiv wmin umax vmin else vmin
-          let vhigh := if nonneg then cdiv wmax umin vmax else vmax
-          (processDomain rc st ww (.interval wlow whigh)).bind fun st =>
-          (processDomain rc st uw (.interval ulow uhigh)).bind fun st =>
-          (processDomain rc st vw (.interval vlow vhigh)).bind fun st =>
-          if operandBound st [uw, vw, ww] then
-            match k with
-            | 0 => .fuel
-            | k' + 1 => runCst k' id (.timesfd u v w) st
-          else .ok (st.withConstraint ord id (.timesfd u v w))
+          let b := timesBounds umin umax vmin vmax wmin wmax
+          narrow3 rc ord self id (.timesfd u v w) uw vw ww b.1 b.2.1 b.2.2 st
         | _, _, _, _, _, _ => .panic "fd-minmax"
       | _, _, _ => .ok (st.withConstraint ord id (.timesfd u v w))
-  | _, id, .diseqfd u v, st =>
+
+def runDiseqFd (id : Nat) (u v : Term) (st : State) : Res State :=
     let uw := walk st.σ u
     let vw := walk st.σ v
     match opDomain st uw, opDomain st vw with
@@ -362,13 +366,11 @@ def runCst : Nat → Nat → Cst → State → Res State
             | none => .fail
           else .ok st
     | _, _ => .ok (st.withConstraint ord id (.diseqfd u v))
-  | k, id, .distinctfd u, st =>
+
+def runDistinctFd (self : Nat → Cst → State → Res State) (id : Nat) (u : Term) (st : State) : Res State :=
     match walk st.σ u with
     | .var _ => .ok (st.withConstraint ord id (.distinctfd u))
-    | .nil =>
-      match k with
-      | 0 => .fuel
-      | k' + 1 => runCst k' st.nextId (.distinctfd2 u [] []) { st with nextId := st.nextId + 1 }
+    | .nil => self st.nextId (.distinctfd2 u [] []) { st with nextId := st.nextId + 1 }
     | .cons h t =>
       let els := (Term.cons h t).iterItems
       let xs := els.filter Term.isVar
@@ -376,13 +378,11 @@ def runCst : Nat → Nat → Cst → State → Res State
       if ns.all Term.isNum then
         let n := (ns.filterMap Term.getNum?).foldr sortedInsert []
         if hasAdjDup n then .fail
-        else
-          match k with
-          | 0 => .fuel
-          | k' + 1 => runCst k' st.nextId (.distinctfd2 u xs n) { st with nextId := st.nextId + 1 }
+        else self st.nextId (.distinctfd2 u xs n) { st with nextId := st.nextId + 1 }
       else .panic "distinctfd-const"
     | _ => .panic "distinctfd-term"
-  | _, _, .distinctfd2 u y n, st =>
+
+def runDistinctFd2 (u : Term) (y : List Term) (n : List Int) (st : State) : Res State :=
     -- walk every pending element: still a variable → stays; a number → joins the constants
     let step (acc : Res (List Term × List Int)) (yi : Term) : Res (List Term × List Int) :=
       acc.bind fun (x, n) =>
@@ -395,6 +395,25 @@ def runCst : Nat → Nat → Cst → State → Res State
       let st := st.withNewConstraint ord (.distinctfd2 u x n')
       if n'.isEmpty then .ok st
       else excludeFromDomain rc st x (.sparse n')
+
+/-- dispatch on the constraint kind -/
+def runCstBody (self : Nat → Cst → State → Res State) (id : Nat) (c : Cst) (st : State) : Res State :=
+  match c with
+  | .diseq ps => runDiseq ord st ps
+  | .plusz u v w => runPlusZ rc ord id u v w st
+  | .timesz u v w => runTimesZ rc ord id u v w st
+  | .ltefd u v => runLteFd rc ord self id u v st
+  | .plusfd u v w => runPlusFd rc ord self id u v w st
+  | .minusfd u v w => runMinusFd rc ord self id u v w st
+  | .timesfd u v w => runTimesFd rc ord self id u v w st
+  | .diseqfd u v => runDiseqFd rc ord id u v st
+  | .distinctfd u => runDistinctFd ord self id u st
+  | .distinctfd2 u y n => runDistinctFd2 rc ord u y n st
+
+/-- `c.run(state)`; `k` bounds the self re-runs (level 0 has none left: `.fuel`) -/
+def runCst : Nat → Nat → Cst → State → Res State
+  | 0, id, c, st => runCstBody rc ord (fun _ _ _ => .fuel) id c st
+  | k + 1, id, c, st => runCstBody rc ord (runCst k) id c st
 
 /-- the loop of `run_constraints` over the snapshot of the store -/
 def runSnapshot (st : State) (snap : List (Nat × Cst)) : Res State :=
